@@ -14,7 +14,7 @@ from lib.refsem import family_moment
 PROPERTY_ID = "C08"
 RULE = (
     "(family, parameters, k or t, sub-check) tuples over the ten families; parameters rational, decimal literals or symbolic; "
-    "sub-checks: raw moment k=0..8 vs textbook formula and defining integral, support/discreteness, cf/mgf values vs defining integral, "
+    "sub-checks: raw moment k=0..8 vs textbook formula and defining integral (two thirds of them after another object of the same family answered the same k), support/discreteness, cf/mgf values vs defining integral, "
     "k-th derivative of cf/mgf at 0, mgf existence predicate both directions, symbolic-then-substitute, location/scale rewriting; "
     "non-trivial = k>=1 (or t != 0) and parameters not the family's textbook default; distinct by the whole tuple"
 )
@@ -52,9 +52,10 @@ def _dec(draw, s):
 
 
 @st.composite
-def dist_params(draw):
-    name = draw(st.sampled_from(["Bernoulli", "Categorical", "DiscreteUniform", "Uniform", "Normal", "Laplace", "DistExp", "Gamma",
-                                 "Beta", "TruncNormal"]))
+def dist_params(draw, name=None):
+    if name is None:
+        name = draw(st.sampled_from(["Bernoulli", "Categorical", "DiscreteUniform", "Uniform", "Normal", "Laplace", "DistExp", "Gamma",
+                                     "Beta", "TruncNormal"]))
     if name == "Bernoulli":
         ps = [draw(st.sampled_from(Q))]
     elif name == "Categorical":
@@ -93,6 +94,10 @@ def cases(draw, tier="quick"):
     case = {"family": name, "params": ps, "what": what, "text_params": [_dec(draw, p) for p in ps]}
     if what == "moment":
         case["k"] = draw(st.integers(0, 8))
+        if draw(st.integers(0, 2)) > 0:
+            # another draw from the same family, asked for the same moment first (a program has many draws; what one
+            # distribution object answered must not be what the next one answers)
+            case["earlier"] = draw(dist_params(name))[1]
     elif what in ("cf", "mgf"):
         case["t"] = draw(st.sampled_from(["0", "1", "-1", "1/2", "2", "-2", "1/3", "3/2", "-1/2", "3", "5/2", "-3"]))
     elif what == "deriv":
@@ -172,6 +177,9 @@ def run_case(case, tier="quick"):
                     assert _close(mpmath.mpf(ref.numerator) / ref.denominator, integ, mpmath.mpf(10) ** -20), \
                         f"oracle self-check failed: formula {ref} vs integral {integ} for {fam} k={k}"
                 try:
+                    if case.get("earlier"):
+                        _mk(name, case["earlier"]).get_moment(k)
+                        tags.append("after_other_object")
                     d = _mk(name, case["text_params"])
                     m = d.get_moment(k)
                 except pd.CaseTimeout:
